@@ -235,12 +235,24 @@ func C13(p *Prog, r *Run) {
 		r.Fn(FuncName(flush))
 		tm := NewTermer(flush)
 		rs := map[string]bool{}
-		var resetLoop *Loop
+		// every loop of Flush that zeroes solver array elements, in order of appearance, with its zero stores
+		var resetLoops []*Loop
+		resetStores := map[*Loop][]Effect{}
+		strayReset := ""
+		flushLoops := Loops(flush)
 		for _, e := range Writes(flush) {
 			if e.Kind == "elem" {
 				if f := ElemOwner(e); f != nil && isZeroTerm(tm.Of(e.Val)) {
+					l := InnermostLoop(flushLoops, e.Instr.Block())
+					if l == nil {
+						strayReset = f.Name() + " at " + p.Pos(e.Instr.Pos())
+						continue
+					}
 					rs[f.Name()+"[*]"] = true
-					resetLoop = InnermostLoop(Loops(flush), e.Instr.Block())
+					if resetStores[l] == nil {
+						resetLoops = append(resetLoops, l)
+					}
+					resetStores[l] = append(resetStores[l], e)
 				}
 			}
 		}
@@ -255,7 +267,19 @@ func C13(p *Prog, r *Run) {
 					l := InnermostLoop(Loops(rsteps), e.Instr.Block())
 					if l != nil {
 						b, _, ok := loopCounter(l, tr)
-						if ok && b.String() == "recv.totalNeuronCount" {
+						full := ok && b.String() == "recv.totalNeuronCount"
+						if !full {
+							// the same fact for other loop forms: counter enters with 0, +1 per iteration, single exit at !(i < totalNeuronCount)
+							if cl, okc := c13CountedLoopOf(l); okc && tr.Of(cl.Bound).String() == "recv.totalNeuronCount" {
+								full = true
+								for _, v := range cl.Inits {
+									if k, isK := constInt(v); !isK || k != 0 {
+										full = false
+									}
+								}
+							}
+						}
+						if full {
 							reinit[f.Name()+"[*]"] = true
 							initLoop = l
 						}
@@ -299,25 +323,70 @@ func C13(p *Prog, r *Run) {
 			}
 		}
 		r.Floor("run-time arrays of the fast solver", len(names), 5)
-		// bounds of the reset loop
-		if resetLoop == nil {
+		// bounds of the reset loop(s): each loop that zeroes array elements must zero, in every iteration, the element at
+		// its counter, and the counter must run over exactly [biasNeuronCount, totalNeuronCount)
+		if len(resetLoops) == 0 {
 			r.Bad("Fast.Flush.loop", p.Pos(flush.Pos()), "Flush has no reset loop")
 			return
 		}
-		wb := returnsBypassing(p, flush, resetLoop)
+		wb := ""
+		for _, l := range resetLoops {
+			if w := returnsBypassing(p, flush, l); w != "" && wb == "" {
+				wb = w
+			}
+		}
 		r.Check(wb == "", "Fast.Flush.unconditional", p.Pos(flush.Pos()), "every return of Flush lies inside or after the reset loop", "the fast solver's Flush can return at "+wb+" without resetting the signals")
-		bound, ph, ok := loopCounterFrom(resetLoop, tm)
-		okB := ok && bound.String() == "recv.totalNeuronCount"
-		init := ""
-		if ok {
-			for _, e := range ph.Edges {
-				if t := tm.Of(e); t.Op != "bin" {
-					init = t.String()
+		okAll, why := true, ""
+		fail := func(msg string) {
+			if okAll {
+				okAll, why = false, msg
+			}
+		}
+		if strayReset != "" {
+			fail("a zero store to " + strayReset + " lies outside any loop, so it resets a single cell only")
+		}
+		for _, l := range resetLoops {
+			at := p.Pos(resetStores[l][0].Instr.Pos())
+			cl, ok := c13CountedLoopOf(l)
+			if !ok {
+				// the original matcher (kept for forms it knows)
+				bound, ph, okOld := loopCounterFrom(l, tm)
+				init := ""
+				if okOld {
+					for _, e := range ph.Edges {
+						if t := tm.Of(e); t.Op != "bin" {
+							init = t.String()
+						}
+					}
+				}
+				fail(fmt.Sprintf("the reset loop at %s runs from %q to %v and is not a loop counting up by one with a single exit test", at, init, bound))
+				continue
+			}
+			bound := tm.Of(cl.Bound)
+			inits := []string{}
+			initOK := true
+			for _, v := range cl.Inits {
+				t := tm.Of(v).String()
+				inits = append(inits, t)
+				if t != "recv.biasNeuronCount" {
+					initOK = false
+				}
+			}
+			if !initOK || bound.String() != "recv.totalNeuronCount" {
+				fail(fmt.Sprintf("the reset loop at %s runs from %q to %v", at, strings.Join(inits, "|"), bound))
+			}
+			for _, e := range resetStores[l] {
+				ia := e.Addr.(*ssa.IndexAddr)
+				if ia.Index != ssa.Value(cl.Phi) {
+					fail(fmt.Sprintf("the zero store at %s writes index %v, not the loop counter", p.Pos(e.Instr.Pos()), tm.Of(ia.Index)))
+				}
+				if !cl.RunsEveryIteration(e.Instr) {
+					fail(fmt.Sprintf("the zero store at %s is not executed in every iteration of the reset loop", p.Pos(e.Instr.Pos())))
 				}
 			}
 		}
-		r.Check(okB && init == "recv.biasNeuronCount", "Fast.Flush.bounds", p.Pos(flush.Pos()), "reset loop covers [biasNeuronCount, totalNeuronCount)",
-			fmt.Sprintf("the reset loop runs from %q to %v; it must cover exactly the non-bias neurons [biasNeuronCount, totalNeuronCount): a later start leaves input/output/hidden state behind, an earlier one erases the bias signals", init, bound))
+		r.Check(okAll, "Fast.Flush.bounds", p.Pos(flush.Pos()), "reset loop covers [biasNeuronCount, totalNeuronCount)",
+			why+"; it must cover exactly the non-bias neurons [biasNeuronCount, totalNeuronCount): a later start leaves input/output/hidden state behind, an earlier one erases the bias signals")
 	})
 }
 
